@@ -408,7 +408,6 @@ func evLen(le layoutEvents, name string) string {
 	return "?"
 }
 
-
 // checkAESPadArithmetic: on every success path of the AES serialiser the
 // trailer length n+1 satisfies payload+n+1 ≡ 0 (mod 16) with 0 ≤ n ≤ 15.
 func checkAESPadArithmetic(c *Ctx, r *Report, fn *ssa.Function) {
@@ -446,7 +445,6 @@ func checkAESPadArithmetic(c *Ctx, r *Report, fn *ssa.Function) {
 	}
 	r.Check(okPad, name+"|pad length", fn.Pos(), "payload+n+1 ≡ 0 (mod 16), 0 ≤ n ≤ 15", whyPad)
 }
-
 
 // checkHashAlwaysReset: the keyed hashes are long-lived objects shared by every
 // packet of a session (and by the handshake computations): whatever is written
